@@ -119,21 +119,28 @@ def gen_params(name="polymer", outpath=Path("polymer.itp"), inpath=[],
     for missing in find_missing_edges(meta_molecule, meta_molecule.molecule):
         LOGGER.warning(msg, **missing)
 
-    with deferred_open(outpath, 'w') as outfile:
-        header = [ ' '.join(sys.argv) + "\n" ]
-        header.append("Please cite the following papers:")
-        for citation in meta_molecule.molecule.citations:
-            # citations without an entry in the force-field bibliography
-            # (e.g. the ones vermouth attaches by default) are skipped
-            if citation not in meta_molecule.molecule.force_field.citations:
-                continue
-            cite_string =  citation_formatter(meta_molecule.molecule.force_field.citations[citation])
-            LOGGER.info("Please cite: " + cite_string)
-            header.append(cite_string)
+    try:
+        with deferred_open(outpath, 'w') as outfile:
+            header = [ ' '.join(sys.argv) + "\n" ]
+            header.append("Please cite the following papers:")
+            for citation in meta_molecule.molecule.citations:
+                # citations without an entry in the force-field bibliography
+                # (e.g. the ones vermouth attaches by default) are skipped
+                if citation not in meta_molecule.molecule.force_field.citations:
+                    continue
+                cite_string =  citation_formatter(meta_molecule.molecule.force_field.citations[citation])
+                LOGGER.info("Please cite: " + cite_string)
+                header.append(cite_string)
 
-        vermouth.gmx.itp.write_molecule_itp(meta_molecule.molecule, outfile,
-                                            moltype=name, header=header)
-    DeferredFileWriter().write()
+            vermouth.gmx.itp.write_molecule_itp(meta_molecule.molecule, outfile,
+                                                moltype=name, header=header)
+        DeferredFileWriter().write()
+    except BaseException:
+        # a file that did not reach its destination must not stay queued:
+        # the next flush of the writer in this process would put it in
+        # place after all
+        DeferredFileWriter().close()
+        raise
 
     # Print molecule Log messages
     if meta_molecule.molecule.log_entries:
